@@ -213,5 +213,5 @@ Example C13_nonvacuous :
 Proof.
   split; [vm_compute; reflexivity|]. split; [vm_compute; reflexivity|]. split.
   - eexists; split; [|reflexivity]. repeat constructor; discriminate.
-  - cbn. repeat split; try discriminate; intros lt [= <-]; split; reflexivity || discriminate.
+  - apply under_limit_b_sound. vm_compute. reflexivity.
 Qed.
